@@ -444,7 +444,7 @@ fn cell_strategy() -> impl Strategy<Value = Cell> {
     let algo = prop_oneof![Just(Algo::Bfs), Just(Algo::Dfs), Just(Algo::PfsMin), Just(Algo::PfsMax)];
     let term = prop_oneof![Just(Term::Search), Just(Term::Path), Just(Term::Cycle)];
     prop_oneof![
-        3 => (algo, any::<bool>(), term, proptest::option::of(0u16..7)).prop_map(|(algo, transposed, term, target)| Cell::Search(SearchCfg { algo, transposed, term, target })),
+        3 => (algo, any::<bool>(), term, proptest::option::of(0 as Key..7)).prop_map(|(algo, transposed, term, target)| Cell::Search(SearchCfg { algo, transposed, term, target })),
         1 => (any::<bool>(), any::<bool>(), any::<bool>()).prop_map(|(pre, transposed, nodes)| Cell::Order(OrderCfg { ord: if pre { Ordk::Pre } else { Ordk::Post }, transposed, term: if nodes { OTerm::Nodes } else { OTerm::Edges } })),
     ]
 }
